@@ -102,14 +102,18 @@ Section C02.
   Definition target_raw (r : tree) : str := match target_of r with Some w => attr_d "value" w | None => [] end.
 
   (* "granted": the last matching redirect rule allows (no rule = ask) *)
-  Lemma redirect_rule_allow cwd tgt : redirect_rule mredir cwd tgt = Allow <-> mredir cwd tgt = Some Allow.
-  Proof. unfold redirect_rule. destruct (mredir cwd tgt) as [[| |]|]; split; congruence. Qed.
+  Lemma redirect_rule_allow cwd tgt :
+    redirect_rule mredir cwd tgt = Allow <-> mredir cwd tgt = Some Allow /\ has_rewritten tgt = false.
+  Proof.
+    unfold redirect_rule, written_rule. destruct (mredir cwd tgt) as [[| |]|]; [|split; [discriminate|intros [? _]; discriminate]..].
+    destruct (has_rewritten tgt); split; try discriminate; try (intros [_ ?]; discriminate); auto.
+  Qed.
 
   (* an approved redirect element that needs a rule has one *)
   Lemma redir_granted r c : is_kind "heredoc" r = false -> snd c = false ->
     ok (r_redir (ev r) c) ->
     forall file, redirect_check (attr_d "op" r) (target_raw r) (target_val r) = Some file ->
-    mredir (fst c) file = Some Allow.
+    mredir (fst c) file = Some Allow /\ has_rewritten file = false.
   Proof.
     destruct r as [k ss fs ks]. unfold is_kind. cbn [kind_of]. intros Hk Hrem Hok file Hcls.
     rewrite redir_unfold, Hk, Hrem in Hok. apply ok_app in Hok as [_ Hok].
@@ -123,7 +127,7 @@ Section C02.
     exists c', snd c' = snd c /\
       (snd c' = false ->
        forall file, redirect_check (attr_d "op" r) (target_raw r) (target_val r) = Some file ->
-       mredir (fst c') file = Some Allow).
+       mredir (fst c') file = Some Allow /\ has_rewritten file = false).
   Proof.
     intros H n r Hin Hk.
     assert (Hok : ok (field RNode (ev t) c)) by (cbn [field]; constructor; [exact H|constructor]).
@@ -131,3 +135,17 @@ Section C02.
     exists c'. split; [exact Hm|]. intros Hrem file Hcls. exact (redir_granted r c' Hk Hrem Hr file Hcls).
   Qed.
 End C02.
+
+(* _extract_cd_target answers only for a literal word *)
+Lemma cd_target_literal t tgt : extract_cd_target t = Some tgt ->
+  has_rewritten tgt = false /\
+  exists w0 w1, children "words" t = [w0; w1] /\ children "parts" w1 = [] /\ tgt = word_value w1.
+Proof.
+  unfold extract_cd_target. destruct (negb (is_kind "command" t)); [discriminate|].
+  destruct (children "words" t) as [|w0 [|w1 [|w2 ws]]]; try discriminate.
+  destruct (negb (str_eqb (word_value w0) $"cd")); [discriminate|].
+  destruct (children "parts" w1) as [|p ps] eqn:Ep; cbn [nonempty]; [|discriminate].
+  destruct (has_rewritten (word_value w1)) eqn:Er; [discriminate|].
+  match goal with |- (if ?b then _ else _) = _ -> _ => destruct b end; [discriminate|].
+  intros E. injection E as <-. split; [exact Er|]. exists w0, w1. split; [reflexivity|split; [exact Ep|reflexivity]].
+Qed.
